@@ -437,6 +437,40 @@ theorem evolve_eq (d : PData α) (es : List (Entry α)) (k : Nat) :
     rw [ih]; unfold testAll
     simp [List.map_map, Function.comp_def, latchAt]
 
+/-- **stop, in terms of the history** (when and only when): in a run started with clear latches,
+the stop flag after step k is true iff some or-condition's quantity was beyond its threshold on
+one of the rows 1..k, or there is an and-condition and every and-condition's quantity was beyond
+its threshold on one of the rows 1..k (not necessarily the same row). -/
+theorem stop_after_iff (d : PData α) (es : List (Entry α)) (k : Nat)
+    (hclear : ∀ e ∈ es, e.l.sat = false) :
+    stopFlag (evolve d es k) = true ↔
+      (∃ e ∈ es, e.isOr = true ∧
+        ∃ j, 1 ≤ j ∧ j ≤ k ∧ holds e.c.dir e.c.value (poll d e.c j) = true) ∨
+      (0 < es.countP (fun e => !e.isOr) ∧
+        ∀ e ∈ es, e.isOr = false →
+          ∃ j, 1 ≤ j ∧ j ≤ k ∧ holds e.c.dir e.c.value (poll d e.c j) = true) := by
+  have hsat : ∀ e ∈ es, ((latchAt d e.c e.l k).sat = true ↔
+      ∃ j, 1 ≤ j ∧ j ≤ k ∧ holds e.c.dir e.c.value (poll d e.c j) = true) := by
+    intro e he
+    rw [latchAt_sat_iff, hclear e he]
+    simp
+  have hcount : (es.map (fun e => ({ e with l := latchAt d e.c e.l k } : Entry α))).countP
+      (fun e => !e.isOr) = es.countP (fun e => !e.isOr) := by
+    rw [List.countP_map]; rfl
+  rw [stopFlag_iff, evolve_eq, hcount]
+  constructor
+  · rintro (⟨e', he', ho, hs⟩ | ⟨hc, hall⟩)
+    · obtain ⟨e, he, rfl⟩ := List.mem_map.mp he'
+      exact Or.inl ⟨e, he, ho, (hsat e he).mp hs⟩
+    · refine Or.inr ⟨hc, fun e he ho => (hsat e he).mp ?_⟩
+      exact hall _ (List.mem_map.mpr ⟨e, he, rfl⟩) ho
+  · rintro (⟨e, he, ho, hs⟩ | ⟨hc, hall⟩)
+    · exact Or.inl ⟨_, List.mem_map.mpr ⟨e, he, rfl⟩, ho, (hsat e he).mpr hs⟩
+    · refine Or.inr ⟨hc, ?_⟩
+      intro e' he' ho
+      obtain ⟨e, he, rfl⟩ := List.mem_map.mp he'
+      exact (hsat e he).mpr (hall e he ho)
+
 /-- what the loop returns, in general position (entered at row k with the entries of row k) -/
 theorem run_sound_aux (d : PData α) (tf : α) (es0 : List (Entry α)) (f k m : Nat) (b : Bool)
     (es' : List (Entry α)) (h : run d tf f k (evolve d es0 k) = (m, b, es')) :
